@@ -167,6 +167,39 @@ def canon_main(ctx, R):
         ctx.missing(R, "main/roles", "found %s" % mp)
         return None
     alpha.rename(fn["body"], {k: v for k, v in mp.items() if k != v})
+    # a tail call of a private helper of the file (`summarize(&mut stdout_writer)`) is the helper's body: a `return` in it
+    # is a return of main
+    for _ in range(2):
+        stmts_ = fn["body"]["stmts"]
+        if not stmts_ or stmts_[-1]["k"] != "ExprStmt" or stmts_[-1].get("semi"):
+            break
+        tail_ = strip(stmts_[-1]["e"])
+        if tail_["k"] == "Return" and tail_.get("e") is not None:
+            tail_ = strip(tail_["e"])
+        if not (tail_["k"] == "Call" and tail_["func"]["k"] == "Path" and "::" not in tail_["func"]["path"]):
+            break
+        hs_ = [f_ for q_, f_ in fns_in_file(MAIN) if f_["name"] == tail_["func"]["path"] and not q_ and f_.get("body") and f_.get("vis") != "pub"]
+        if len(hs_) != 1:
+            break
+        h_ = copy.deepcopy(hs_[0])
+        pn_ = [i_["pat"]["name"] for i_ in h_["sig"]["inputs"] if not i_.get("self") and i_["pat"]["k"] == "PIdent"]
+        if len(pn_) != len(tail_["args"]):
+            break
+        ren_ = {}
+        ok_ = True
+        for p_, a_ in zip(pn_, tail_["args"]):
+            a0_ = strip(a_)
+            while a0_["k"] in ("Ref", "Paren"):
+                a0_ = strip(a0_["e"])
+            if a0_["k"] == "Path" and "::" not in a0_["path"]:
+                if p_ != a0_["path"]:
+                    ren_[p_] = a0_["path"]
+            else:
+                ok_ = False
+        if not ok_:
+            break
+        alpha.rename(h_["body"], ren_)
+        fn["body"]["stmts"] = stmts_[:-1] + h_["body"]["stmts"]
     return fn
 
 
